@@ -79,8 +79,9 @@ func oracleC11(v *View, vd *Verdict) {
 						flushSeen[k]++
 						if flushSeen[k] == 1 {
 							flushOrder = append(flushOrder, k)
-						} else if !p.Dup {
-							vd.Add("C11", fmt.Sprintf("C11/duplicate-without-dup/qos%d", p.QoS), "session %s cycle %d: %s delivered %d times in one flush, copy without DUP", sv.Name, cycle, p.String(), flushSeen[k])
+						} else if flushSeen[k] == 2 {
+							// the client had no chance to acknowledge the first copy yet: every message is owed once
+							vd.Add("C11", fmt.Sprintf("C11/delivered-more-than-once-in-one-flush/qos%d", p.QoS), "session %s cycle %d: %s delivered again in the same flush (dup=%v)", sv.Name, cycle, p.String(), p.Dup)
 						}
 					}
 					if p.Type == refsn.PINGRESP {
@@ -162,6 +163,10 @@ func genC11(g *Gen, idx int) *Plan {
 	cfg := g.BaseCfg()
 	cfg.Sched = g.Sched("gateway/handler1.go:7", "gateway/handler1.go:8", "gateway/handler1.go")
 	cfg.RetryDelayMs = g.Range(4000, 15000)
+	if g.Bool(0.4) {
+		// sleeps longer than the whole retry budget of the gateway's own exchanges
+		cfg.RetryDelayMs = g.Range(200, 3000)
+	}
 	p := &Plan{Family: "C11-cycles", Cfg: cfg}
 	sg := &sessGen{g: g, cid: "c1"}
 	ka := uint16(g.Range(10, 60))
